@@ -32,9 +32,16 @@ theorem logaddexp_val (a b : R) (h : |a.val - b.val| < 37) :
   · have c : RealLike.gt a b = false := by show RealLike.lt b a = false; rw [R.lt_false_iff]; exact hgt
     have e : Real.exp a.val + Real.exp b.val = Real.exp b.val * (1 + Real.exp (a.val - b.val)) := by
       rw [mul_add, mul_one, ← Real.exp_add]; ring_nf
-    simp only [Gen.logaddexp, c, Bool.false_eq_true, if_false, R.add_val]
-    rw [log1pexp_val _ (by rw [R.sub_val]; linarith) (by rw [R.sub_val]; linarith), R.sub_val, e,
-      Real.log_mul (Real.exp_pos _).ne' (by positivity), Real.log_exp]
+    by_cases hlt : a.val < b.val
+    · have c' : RealLike.gt b a = true := by show RealLike.lt a b = true; rw [R.lt_iff]; exact hlt
+      simp only [Gen.logaddexp, c, c', Bool.false_eq_true, if_false, if_true, R.add_val]
+      rw [log1pexp_val _ (by rw [R.sub_val]; linarith) (by rw [R.sub_val]; linarith), R.sub_val, e,
+        Real.log_mul (Real.exp_pos _).ne' (by positivity), Real.log_exp]
+    · -- equal arguments: the repaired code returns `a + ln 2`
+      have c' : RealLike.gt b a = false := by show RealLike.lt a b = false; rw [R.lt_false_iff]; exact hlt
+      have hab : a.val = b.val := le_antisymm (not_lt.mp hgt) (not_lt.mp hlt)
+      simp only [Gen.logaddexp, c, c', Bool.false_eq_true, if_false, R.add_val, R.ln2_val]
+      rw [hab, ← two_mul, Real.log_mul (by norm_num) (Real.exp_pos _).ne', Real.log_exp, add_comm]
 
 end C01
 
